@@ -291,10 +291,17 @@ func HarnessProbeLoop() {
 	}
 	k := vIntRange("claim_after", 0, 2*P)
 	vBlockUntil(func() bool { return (len(vTrace) >= k || vProbeParked > 0) && completed() == vProbeResultsApplied })
+	// (the claim and the instant the oracle refers to are one step: nothing may be scheduled in between)
+	vAtomicBegin()
+	seen := len(vTrace)
 	_, _, cerr := lb.claimTarget(vPlainRequest("/"))
+	vAtomicEnd()
 	vNote(vTraceString())
 	latest, ok := -1, false
-	for _, e := range vTrace {
+	for i, e := range vTrace {
+		if i >= seen {
+			break
+		}
 		if e.kind == "probe_end" && e.req > latest {
 			latest, ok = e.req, e.ok
 		}
